@@ -91,7 +91,71 @@ def c09_nest(depth: int, leaf: int, k0: int, k1: int, k2: int, k3: int,
   return ok and gin.current_scope() == [] and gin.current_scope_str() == ''
 
 
+OUTER = ['', 'o', 'o/p', ['l', 'm'], None]
+INNER = ['i', 'i/j', ['k'], None, '']
+
+
+def c09_deferred(how: int, outer: int, inner: int) -> bool:
+  """
+  pre: 0 <= how < 4 and 0 <= outer < 5 and 0 <= inner < 5
+  """
+  world.fresh()
+  how = rt.pick(how, 4)      # 0 inline, 1 context manager created BEFORE the outer scope is entered,
+  outer = rt.pick(outer, 5)  # 2 decorator on a function defined before, 3 created inside another scope
+  inner = rt.pick(inner, 5)
+  rt.sig(('deferred', how, outer, inner), nontrivial=how != 0)
+  with rt.native():
+    o, i = OUTER[outer], INNER[inner]
+    seen = []
+    if how == 1:
+      cm = gin.config_scope(i)
+    elif how == 2:
+      @gin.config_scope(i)
+      def decorated():
+        seen.append(gin.current_scope())
+    elif how == 3:
+      with gin.config_scope('elsewhere'):
+        cm = gin.config_scope(i)
+
+    def body():
+      base = gin.current_scope()
+      if how == 0:
+        with gin.config_scope(i):
+          seen.append(gin.current_scope())
+      elif how == 2:
+        decorated()
+      else:
+        with cm:
+          seen.append(gin.current_scope())
+      return base, gin.current_scope()
+
+    if outer == 0:
+      base, after = body()
+    else:
+      with gin.config_scope(o):
+        base, after = body()
+    # the scope is composed from what is active when the block is ENTERED
+    if isinstance(i, list):
+      want = list(i)
+    elif i:
+      want = base + i.split('/')
+    else:
+      want = []
+    if seen != [want]:
+      return rt.no('inside the block the scope is %r, expected %r (creation %d, outer %r, inner %r)' %
+                   (seen, want, how, o, i))
+    return (after == base and gin.current_scope() == []) or rt.no('scope not restored')
+
+
 HARNESSES = {
+    'c09_deferred': dict(
+        fn='c09_deferred',
+        anchors=['gin.config:config_scope'],
+        smoke=[dict(how=1, outer=1, inner=0), dict(how=2, outer=2, inner=1)],
+        tiers={'quick': dict(split=dict(how=[0, 1, 2, 3]), budget_s=60),
+               'thorough': dict(split=dict(how=[0, 1, 2, 3]), budget_s=60)},
+        bounds='config_scope used inline / as a context manager created before (or inside another scope than) the place '
+               'where it is entered / as a decorator, x 5 outer scopes x 5 inner scope arguments'),
     'c09_nest': dict(
         fn='c09_nest',
         anchors=['gin.config:config_scope', 'gin.config:enter_scope', 'gin.config:exit_scope',
